@@ -96,10 +96,14 @@ BOUNDED = [bounded("fa_repro.py", "enroll_blocks", "C07.block-order-return",
                    "the joint log-posterior of the enrolment statistics (exact rationals) never decreases with one more enrolment iteration")]
 SHARED = []
 REPLAY = [("C07.block", "fa_repro.py", "enroll_blocks", {}), ("C07", "fa_repro.py", "enroll_posterior", {})]
-LEVEL = "other"
-EXPLANATION = ("Leaf formulas (residuals, posterior precisions, U'S^-1U products) are proved for all shapes (Tier A, counted in obligations/discharged). "
-               "The block updates of the enrolment loops and their order are checked by the bounded objrun engine on a finite shape grid "
-               "(bounded_checks, never counted as discharged). Convergence to the mode rests on the trusted lemma L-BCA.")
+LEVEL = "proof"
+LEVEL_TEXT = ("Proof (all shapes, ranks and session counts) that each block update of enrolment -- speaker factors, per-session channel factors, residual offset -- "
+              "is the exact maximiser of the joint posterior over its block given the current other blocks, that the enrolment loops apply them in the order "
+              "(y,) x, z with the current values and return the last iterate, and of every leaf formula they are assembled from. That the posterior then never "
+              "decreases and the iterates converge to the unique mode is the trusted lemma L-BCA (exact block maximisation of a strictly concave quadratic); "
+              "it is additionally checked natively, with exact rationals, on a shape grid (bounded).")
+EXPLANATION = ("Leaf formulas, the three block updates and the enrolment order are proved (obligations/discharged). The bounded objrun checks "
+               "(bounded_checks, never counted as discharged) re-check blocks/order natively and the monotonicity of the joint posterior with exact rationals.")
 TRUSTED = ["L-BCA: exact maximisation of one block of a strictly concave quadratic never decreases it, and cyclic block maximisation converges to its unique maximiser",
            "np.linalg.inv contract; compound axis C*D is row-major (reshape/flatten/np.repeat semantics of the NumPy model)"]
 ASSUMPTIONS = ["UBM variances > 0"]
